@@ -3,6 +3,8 @@
 Ops (driver side in lean/NetaddrVerif/Driver/C03.lean):
   net_parse be argkind arg implicit ver flags   (argkind in str, tuple, copyA, copyN)
   abbrev S · expand S · net_str be F V P
+  abbrev_x kind val  (non-str arguments of cidr_abbrev_to_verbose: i int, b bool, f finite float by truncation, n None/tuple/list)
+  net_repr be F V P  (repr(IPNetwork) and the network built from its quoted part)
 plus the modelled runtime op `pyint` (the model reads prefixes and partial octets through Py.pyInt)."""
 import re
 import socket
@@ -24,6 +26,12 @@ RULE = ('every prefix 0..width x structured values x both families, each spelled
         'spaced, underscored, hex, empty) with no suffix / numeral / signed numeral / netmask / hostmask / broken mask '
         'suffix under every (implicit_prefix, version, flags); signed and huge numeral prefixes after arbitrary address '
         'parts; tuples over boundary values x boundary prefixes x version None/4/6 x flags x implicit_prefix. '
+        'cidr_abbrev_to_verbose on non-str arguments: every int -2..300, class boundaries, +-2^32, ints around the '
+        'interpreter int-to-str digit limit (10^4299 .. 10^5000, both signs), True / False, finite floats (fractions around '
+        'every class boundary, negative fractions, 1e300), None / tuple / list; repr(IPNetwork) of every generated '
+        '(version, value, prefix) with the eval-free round trip; every spelled network also under the OTHER explicit '
+        'version; cross-family masks: IPv6 address / IPv4-text mask and IPv4 address / IPv6-text mask where the mask '
+        'integer is a contiguous netmask or hostmask in the other family (::1/0.0.0.255, 1.2.3.4/::ffff:ff00, ...). '
         'non-trivial = distinct case whose implementation output is not an error')
 NOHOST = 4
 ALPHA = '0123456789abcdefABCDEFxX.:/ +-_\t\n'
@@ -282,6 +290,53 @@ def tuple_cases(rng, count):
     return out
 
 
+def cross_family_strings(rng, count):
+    """address of one family, mask text of the other whose INTEGER is a contiguous netmask / hostmask of the address's
+    family (a constructor that resolved the mask without the family would accept them)"""
+    from props.c01 import ref_ntop6
+    out = []
+    for _ in range(count):
+        if rng.random() < 0.5:
+            a = ref_addr_str(6, rand_value(rng, 128))
+            k = rng.randrange(0, 33)
+            m = rng.choice([(1 << k) - 1, ((1 << 32) - 1) ^ ((1 << k) - 1), 0, (1 << 32) - 1])
+            out.append('%s/%s' % (a, ref_quad(m)))
+        else:
+            a = ref_quad(rand_value(rng, 32))
+            k = rng.randrange(0, 33)
+            m = rng.choice([(1 << k) - 1, ((1 << 32) - 1) ^ ((1 << k) - 1), 0, ((1 << 128) - 1) ^ ((1 << (128 - k)) - 1),
+                            (1 << k) - 1 | (0xffff << 32)])
+            t = ref_ntop6(m)
+            if rng.random() < 0.3 and m < (1 << 32):
+                t = '::' + ref_quad(m)
+            out.append('%s/%s' % (a, t))
+    return out
+
+
+def abbrevx_cases(rng, mult):
+    out = []
+
+    def add(kind, line_val, arg_val, tag):
+        out.append(Case('abbrev_x %s %s' % (kind, line_val), 'abbrevx/' + tag, ('abbrevx', kind, arg_val)))
+    ints = list(range(-2, 301)) + [-255, -256, 1000, 65535, (1 << 32) - 1, 1 << 32, -(1 << 32), 1 << 128]
+    for e in (4298, 4299, 4300, 4301, 5000):
+        for d in (-1, 0, 1):
+            ints += [10 ** e + d, -(10 ** e) - d]
+    for i in ints:
+        add('i', '%d' % i, i, 'int' if abs(i) < 10 ** 4000 else 'hugeint')
+    add('b', 'T', True, 'bool')
+    add('b', 'F', False, 'bool')
+    floats = [0.0, -0.0, 0.5, -0.5, -0.999, -1.0, -1.5, 1.5, 255.0, 255.9, 256.0, 256.5, 1e300, -1e300, 1e15, 2.0 ** 53 + 2]
+    for b in (127, 128, 191, 192, 223, 224, 239, 240, 255):
+        floats += [b - 0.5, b + 0.0, b + 0.5, b + 0.999]
+    floats += [rng.uniform(-3, 300) for _ in range(20 * mult)]
+    for f in floats:
+        add('f', '%d' % int(f), repr(f), 'float')
+    for nm in ('none', 'tuple', 'list'):
+        add('n', '-', nm, 'nonint')
+    return out
+
+
 def corpus():
     """witnesses of the fixed finding F14 (IndexError escaping / second slash)"""
     out = []
@@ -328,6 +383,11 @@ def generate(rng, tier):
                     if c.args[8] is not None and rng.random() < 0.15:
                         strings.append(c.args[8])
                 cases.append(Case('net_str pl %d %d %d' % (ver, v, p), 'net_str/v%d' % ver, ('netstr', ver, v, p)))
+                cases.append(Case('net_repr pl %d %d %d' % (ver, v, p), 'net_repr/v%d' % ver, ('netrepr', ver, v, p)))
+                # the same network text under the OTHER explicit version (finding 18: must be refused)
+                form = rng.choice(['prefix', 'netmask', 'hostmask', 'bare'])
+                sc = spell_case(ver, v, p, form, True, 0, False)
+                cases.append(raw_case(sc.args[8], rng.random() < 0.3, 10 - ver, rng.choice([0, NOHOST]), 'mismatch'))
                 cases.append(Case(None, 'str_rt/v%d' % ver, ('str_rt', ver, v, p, rng.choice([None, ver]))))
             # non-contiguous masks and out-of-range prefixes on this address
             v = rand_value(rng, w)
@@ -380,6 +440,10 @@ def generate(rng, tier):
             cases.append(Case('abbrev ' + hexs(s), 'abbrev', ('abbrev', s)))
             if rng.random() < 0.5 or s in NEARN:
                 cases.append(Case('expand ' + hexs(s), 'expand', ('expand', s)))
+    for t in cross_family_strings(rng, 60 * mult):
+        for implicit, ver, flags in rng.sample([(i, v, f) for i in (False, True) for v in (None, 4, 6) for f in (0, NOHOST)], 4):
+            cases.append(raw_case(t, implicit, ver, flags, 'crossmask'))
+    cases += abbrevx_cases(rng, mult)
     cases += tuple_cases(rng, 150 * mult)
     cases.append(raw_case('1.2.3.4/8', False, 5, 0, 'badversion'))
     cases.append(raw_case('1.2.3.4/8', False, 0, 0, 'badversion'))
@@ -458,12 +522,35 @@ def impl(c):
             return hexs(s) + ' ' + _show(IPNetwork(s, version=pver))
         if op == 'abbrev':
             return hexs(netaddr.cidr_abbrev_to_verbose(a[1]))
+        if op == 'abbrevx':
+            arg = _abbrevx_arg(a[1], a[2])
+            r = netaddr.cidr_abbrev_to_verbose(arg)
+            if r is arg:
+                return '='
+            return hexs(r) if isinstance(r, str) else '!weird:' + type(r).__name__
+        if op == 'netrepr':
+            _, ver, v, p = a
+            r = repr(common.make_net(ver, v, p))
+            pre_, suf = "IPNetwork('", "')"
+            if not (r.startswith(pre_) and r.endswith(suf) and len(r) >= len(pre_) + len(suf)):
+                return hexs(r) + ' !unquote'
+            return hexs(r) + ' ' + _show(IPNetwork(r[len(pre_):len(r) - len(suf)]))
         if op == 'expand':
             from netaddr.strategy import ipv4
             return hexs(ipv4.expand_partial_address(a[1]))
     except Exception as e:
         return '!' + errname(e)
     raise ValueError(a)
+
+
+def _abbrevx_arg(kind, val):
+    if kind == 'i':
+        return val
+    if kind == 'b':
+        return bool(val)
+    if kind == 'f':
+        return float(val)
+    return {'none': None, 'tuple': (1, 2), 'list': [10]}[val]
 
 
 def _unhex(tok):
@@ -544,6 +631,28 @@ def oracle(c, got):
         exp = (hexs(ref_abbrev(s, strict_int)), hexs(ref_abbrev(s, lenient_int)))
         return None if got in exp else 'cidr_abbrev_to_verbose(%r) -> %r, expected %r' % (
             s, _unhex(got) if got.startswith('s:') else got, _unhex(exp[0]))
+    if op == 'abbrevx':
+        kind, val = a[1], a[2]
+        if kind == 'n':
+            exp = '='
+        else:
+            t = int(_abbrevx_arg(kind, val))
+            if 0 <= t <= 255:
+                exp = hexs('%d.0.0.0/%d' % (t, classful(t)))
+            elif abs(t) < 10 ** 4300:
+                exp = '='
+            else:
+                return None            # beyond the int-to-str digit limit: the documentation says nothing; correspondence only
+        return None if got == exp else 'cidr_abbrev_to_verbose(%s) -> %s, expected %s' % (
+            str(val)[:40], _unhex(got) if got.startswith('s:') else got, _unhex(exp) if exp.startswith('s:') else 'the argument itself')
+    if op == 'netrepr':
+        _, ver, v, p = a
+        toks = got.split(' ')
+        exp = "IPNetwork('%s/%d')" % (ref_addr_str(ver, v), p)
+        if len(toks) != 2 or not toks[0].startswith('s:') or _unhex(toks[0]) != exp or toks[1] != '%d:%d/%d' % (ver, v, p):
+            return 'repr(IPNetwork((%d, %d), version=%d)) = %s, expected %r parsing back to the same network' % (
+                v, p, ver, (_unhex(toks[0]) if toks[0].startswith('s:') else toks[0]) + ' -> ' + ' '.join(toks[1:]), exp)
+        return None
     if op == 'expand':
         s = a[1]
         e = []
@@ -573,6 +682,10 @@ def repro(c):
         return pre + 'n = IPNetwork((%d, %d), version=%d); str(n), IPNetwork(str(n))' % (a[2], a[3], a[1])
     if a[0] == 'abbrev':
         return pre + 'cidr_abbrev_to_verbose(%r)' % (a[1],)
+    if a[0] == 'abbrevx':
+        return pre + 'cidr_abbrev_to_verbose(%s)' % ({'none': 'None', 'tuple': '(1, 2)', 'list': '[10]'}.get(a[2], str(a[2])[:60]) if a[1] != 'b' else bool(a[2]),)
+    if a[0] == 'netrepr':
+        return pre + 'n = IPNetwork((%d, %d), version=%d); repr(n), IPNetwork(repr(n)[11:-2])' % (a[2], a[3], a[1])
     if a[0] == 'expand':
         return 'from netaddr.strategy import ipv4; ipv4.expand_partial_address(%r)' % (a[1],)
     return repr(a)
